@@ -1,0 +1,41 @@
+//go:build verif
+
+// Contracts for the exovc verifier (/verif). Comment-only: with the tag off this file is not part
+// of the package, with the tag on it declares nothing.
+package keeper
+
+//@ define epochKey(id)   = cat(g("x/epochs/types.KeyPrefixEpoch"), id)
+//@ define epochRaw(c, id) = get(c, "epochs", epochKey(id))
+//@ define epochOf(c, id)  = unm["x/epochs/types.EpochInfo"](epochRaw(c, id))
+//@ define epochValid(e)  = e.Identifier != "" && e.Duration > 0 && e.CurrentEpoch >= 0 && e.CurrentEpochStartHeight >= 0
+//@ define due(c, e)      = epochValid(e) && c.time >= e.StartTime
+//@ define ticks(c, e)    = due(c, e) && e.EpochCountingStarted && c.time > e.CurrentEpochStartTime + e.Duration
+//@ define starts(c, e)   = due(c, e) && !e.EpochCountingStarted
+
+// C15: the per-identifier step of BeginBlocker, against the clock rules of the property statement.
+// Ghost trace events: mkEv(1, id, n) = end(id, n) delivered, mkEv(2, id, n) = start(id, n) delivered.
+//@ func (Keeper).BeginBlocker$1
+//@   requires k.hooks != nil
+//@   requires epochInfo.CurrentEpoch < 9223372036854775807
+//@   modifies trace, state(ctx)
+//@   ensures[C15.tick.never_stops] !stop
+//@   ensures[C15.tick.idle]  !starts(ctx, epochInfo) && !ticks(ctx, epochInfo) ==> traceN() == old(traceN()) && state(ctx) == old(state(ctx))
+//@   ensures[C15.tick.first] starts(ctx, epochInfo) ==> traceN() == old(traceN()) + 1 && traceAt(old(traceN())) == mkEv(2 + 10 * ityp(k.hooks), epochInfo.Identifier, 1) &&
+//@        epochRaw(ctx, epochInfo.Identifier) != nil &&
+//@        epochOf(ctx, epochInfo.Identifier).CurrentEpoch == 1 && epochOf(ctx, epochInfo.Identifier).EpochCountingStarted &&
+//@        epochOf(ctx, epochInfo.Identifier).CurrentEpochStartTime == epochInfo.StartTime &&
+//@        epochOf(ctx, epochInfo.Identifier).CurrentEpochStartHeight == ctx.height &&
+//@        epochOf(ctx, epochInfo.Identifier).StartTime == epochInfo.StartTime && epochOf(ctx, epochInfo.Identifier).Duration == epochInfo.Duration &&
+//@        epochOf(ctx, epochInfo.Identifier).Identifier == epochInfo.Identifier
+//@   ensures[C15.tick.next]  ticks(ctx, epochInfo) ==> traceN() == old(traceN()) + 2 &&
+//@        traceAt(old(traceN())) == mkEv(1 + 10 * ityp(k.hooks), epochInfo.Identifier, epochInfo.CurrentEpoch) &&
+//@        traceAt(old(traceN()) + 1) == mkEv(2 + 10 * ityp(k.hooks), epochInfo.Identifier, epochInfo.CurrentEpoch + 1) &&
+//@        epochRaw(ctx, epochInfo.Identifier) != nil &&
+//@        epochOf(ctx, epochInfo.Identifier).CurrentEpoch == epochInfo.CurrentEpoch + 1 && epochOf(ctx, epochInfo.Identifier).EpochCountingStarted &&
+//@        epochOf(ctx, epochInfo.Identifier).CurrentEpochStartTime == epochInfo.CurrentEpochStartTime + epochInfo.Duration &&
+//@        epochOf(ctx, epochInfo.Identifier).CurrentEpochStartHeight == ctx.height &&
+//@        epochOf(ctx, epochInfo.Identifier).StartTime == epochInfo.StartTime && epochOf(ctx, epochInfo.Identifier).Duration == epochInfo.Duration &&
+//@        epochOf(ctx, epochInfo.Identifier).Identifier == epochInfo.Identifier
+//@   ensures[C15.tick.frame] forall(i, 0, old(traceN()), traceAt(i) == old(traceAt(i))) &&
+//@        (starts(ctx, epochInfo) || ticks(ctx, epochInfo) ==>
+//@           store(ctx, "epochs") == sput(old(store(ctx, "epochs")), epochKey(epochInfo.Identifier), epochRaw(ctx, epochInfo.Identifier)))
